@@ -77,7 +77,7 @@ impl Collect for RecC {
 
 static META: std::sync::OnceLock<&'static Metadata<'static>> = std::sync::OnceLock::new();
 
-struct Never;
+struct Never(#[allow(dead_code)] Option<tracing::Span>);   // never completes; may own a span handle, released when the future is dropped
 impl Future for Never {
     type Output = ();
     fn poll(self: Pin<&mut Self>, _: &mut Context<'_>) -> Poll<()> { Poll::Pending }
@@ -166,7 +166,7 @@ fn run_program(line: &str) -> String {
                 }
                 "in" => {
                     let s = w.lock().unwrap().handles.remove(&n(1));
-                    if let Some(s) = s { w.lock().unwrap().futures.insert(n(2), Box::pin(Never.instrument(s))); }
+                    if let Some(s) = s { let held = if a.len() > 3 { w.lock().unwrap().handles.remove(&n(3)) } else { None }; w.lock().unwrap().futures.insert(n(2), Box::pin(Never(held).instrument(s))); }
                 }
                 "po" => {
                     let f = w.lock().unwrap().futures.remove(&n(2));
